@@ -41,6 +41,18 @@ macro_rules! define_hasher {
             }
         }
 
+        /// Verification hooks (compiled only with `--cfg cryptocorrosion_verif`): read and
+        /// overwrite the count of message bytes absorbed.
+        #[cfg(cryptocorrosion_verif)]
+        impl $name {
+            pub fn verif_counter(&self) -> u128 {
+                self.datalen as u128
+            }
+            pub fn verif_set_counter(&mut self, v: u128) {
+                self.datalen = v as usize;
+            }
+        }
+
         impl Default for $name {
             fn default() -> Self {
                 Self {
